@@ -617,16 +617,24 @@ func vMakeNA(priv *btcec.PrivateKey, ts uint32, variant int) *lnwire.NodeAnnounc
 	return a
 }
 
+// vClone sends a message through the wire codec: what the gossiper is handed
+// is always something a peer could really have delivered.
 func vClone(m lnwire.Message) lnwire.Message {
 	var b bytes.Buffer
 	if _, err := lnwire.WriteMessage(&b, m, 0); err != nil {
-		panic(err)
+		return nil
 	}
 	c, err := lnwire.ReadMessage(bytes.NewReader(b.Bytes()), 0)
 	if err != nil {
-		panic(err)
+		return nil
 	}
 	return c
+}
+
+// vExtra is a well-formed TLV record of an unknown odd type.
+func vExtra(r *vrng) []byte {
+	v := r.bytes(1 + r.intn(8))
+	return append([]byte{byte(101 + 2*r.intn(40)), byte(len(v))}, v...)
 }
 
 // ---------------------------------------------------------------------------
@@ -1164,7 +1172,7 @@ func (g *vGen) corruptCA(i int) (*lnwire.ChannelAnnouncement1, string) {
 		a.Features.Set(bit)
 		tag = fmt.Sprintf("ca_feature%d", bit)
 	case 9: // extra opaque data
-		a.ExtraOpaqueData = append(a.ExtraOpaqueData, r.bytes(1+r.intn(8))...)
+		a.ExtraOpaqueData = append(a.ExtraOpaqueData, vExtra(r)...)
 		tag = "ca_extra"
 	case 10: // a key corrupted into (very likely) not-a-point
 		w := r.intn(4)
@@ -1281,7 +1289,7 @@ func (g *vGen) corruptCU(i int) (*lnwire.ChannelUpdate1, string) {
 		resign = r.bool()
 		tag = "cu_chain"
 	case 12:
-		u.ExtraOpaqueData = append(u.ExtraOpaqueData, r.bytes(1+r.intn(8))...)
+		u.ExtraOpaqueData = append(u.ExtraOpaqueData, vExtra(r)...)
 		resign = r.bool()
 		tag = "cu_extra"
 	case 13:
@@ -1342,7 +1350,7 @@ func (g *vGen) corruptNA(n int) (*lnwire.NodeAnnouncement1, string) {
 		resign = r.intn(3) == 0
 		tag = "na_features"
 	case 5:
-		a.ExtraOpaqueData = append(a.ExtraOpaqueData, r.bytes(1+r.intn(8))...)
+		a.ExtraOpaqueData = append(a.ExtraOpaqueData, vExtra(r)...)
 		resign = r.intn(3) == 0
 		tag = "na_extra"
 	case 6:
@@ -1438,6 +1446,9 @@ func (g *vGen) next(step int, kind string) (lnwire.Message, string) {
 			}
 		}
 		if m == nil {
+			continue
+		}
+		if m = vClone(m); m == nil {
 			continue
 		}
 		// Replays of premature updates run concurrently inside lnd; keep
